@@ -217,3 +217,53 @@ def mutated_fixture(rng):
         s = rng.randrange(len(toks) - 1500)
         toks = toks[s:s + 1500]
     return name, "".join(mutate(toks, rng, rng.randint(1, 5)))
+
+
+MB = ["é", "ü", "€", "日", "🙂", "ß", "Ж", "\u00a0", "\u2028"]
+
+
+def unicode_blob(rng, nbytes):
+    """Text of roughly nbytes bytes in which multi-byte characters sit at every alignment."""
+    out = []
+    size = 0
+    while size < nbytes:
+        if rng.random() < 0.35:
+            c = rng.choice(MB)
+        else:
+            c = rng.choice("abcdefghij XYZ0123456789_-+")
+        out.append(c)
+        size += len(c.encode("utf-8"))
+    return "".join(out)
+
+
+def unicode_case(rng):
+    """Long tokens with multi-byte characters where messages, labels and positions are computed: inside a token
+    the parser rejects, in an unterminated string or comment, in an OSCAT header, after an error on the same line."""
+    n = rng.choice([20, 40, 47, 48, 49, 64, 100, 127, 128, 129, 130, 200, 300, 1000])
+    blob = unicode_blob(rng, n).replace("'", "").replace('"', "")
+    pad = "a" * rng.randint(0, 5)
+    k = rng.randrange(12)
+    head = "PROGRAM p VAR x : INT; s : STRING; END_VAR "
+    if k == 0:
+        return head + "s := 'ok' '%s%s'; END_PROGRAM" % (pad, blob)          # syntax error at a long string token
+    if k == 1:
+        return head + "s := '%s%s; x := 1; END_PROGRAM" % (pad, blob)          # unterminated string
+    if k == 2:
+        return head + "x := 1; (* %s%s END_PROGRAM" % (pad, blob)             # unterminated comment
+    if k == 3:
+        return head + "x := \"%s%s\" \"again\"; END_PROGRAM" % (pad, blob)     # double-quoted, syntax error
+    if k == 4:
+        return head + "s := '%s%s'; x := undeclared; END_PROGRAM" % (pad, blob)  # valid string, later semantic error
+    if k == 5:
+        return head + "(* %s *) x := ? ; END_PROGRAM" % blob                   # lexical error after non-ASCII
+    if k == 6:
+        return "(*@KEY@:DESCRIPTION*)\r\n%s\r\n%s\r\n(*@KEY@:END_DESCRIPTION*)\r\n" % (blob, pad) + head + "x := y; END_PROGRAM"
+    if k == 7:
+        return "(*@KEY@:END_DESCRIPTION*) (*@KEY@:DESCRIPTION*) %s (*@KEY@:END_DESCRIPTION*) (*@KEY@:DESCRIPTION*) x (*@KEY@:END_DESCRIPTION*)" % blob + head + "END_PROGRAM"
+    if k == 8:
+        return head + "x := %s%s; END_PROGRAM" % (pad, blob)                    # non-ASCII where an expression is expected
+    if k == 9:
+        return head + "s := '%s'%s; END_PROGRAM" % (blob, blob[:20])
+    if k == 10:
+        return "TYPE %s : INT; END_TYPE (* %s *) %s" % (pad or "T", blob, blob)
+    return head + "x := 1;\n(* %s\n %s *) x := '%s' + ;\nEND_PROGRAM" % (blob[:30], blob[:40], blob)
